@@ -35,6 +35,7 @@ ALWAYS_INLINE = {
     "prefixed_storage::namespace_helpers::trim",
     "transactions::MergeOverlay::pick_match",
     "wasm::encode_response_data",
+    "wasm::WasmKeeper::with_storage_readonly",
 }
 
 
@@ -1262,8 +1263,9 @@ def align_params(data):
     """A16: a known private function whose parameters were reordered, or that lost its `self` (method -> associated function),
     is brought back to the parameter order the rule tables were confirmed with (vlib/frozen_params.json): the parameter
     locals are renumbered in its body and the arguments permuted (a unit constant for a dropped `self`) at every call
-    site.  Only when the actual parameter names are exactly the frozen ones, possibly without `self`, in another order;
-    anything else (a new or renamed-and-moved parameter) is left as it is."""
+    site.  Only when the actual parameter names are the frozen ones, possibly without `self`, in another order (renamed
+    parameters are paired with the frozen names that disappeared when that pairing is forced); anything else (a new
+    parameter, several renamed-and-moved ones) is left as it is."""
     from .facts import frozen_params
     fz_all = frozen_params()
     done = {}
@@ -1280,8 +1282,23 @@ def align_params(data):
         names = [actual.get(i) for i in range(1, argc + 1)]
         if None in names or len(set(names)) != len(names) or names == fz:
             continue
+        if len(set(fz)) != len(fz):
+            continue
+        # (parameters renamed on the way: the ones that keep their name anchor the order; the renamed ones are paired, in
+        #  order, with the frozen names nobody has any more -- only when that pairing is forced: a single renamed
+        #  parameter, or the kept ones not having moved at all)
+        fresh = [x for x in names if x not in fz]
+        if fresh:
+            gone = [x for x in fz if x not in names and not (x == "self" and fz[0] == "self" and argc == len(fz) - 1)]
+            kept = [x for x in names if x in fz]
+            if len(gone) != len(fresh) or (len(fresh) > 1 and kept != [x for x in fz if x in kept]):
+                continue
+            ren = dict(zip(fresh, gone))
+            names = [ren.get(x, x) for x in names]
+            if names == fz:
+                continue
         missing = [x for x in fz if x not in names]
-        if set(names) - set(fz) or missing not in ([], ["self"]) or len(set(fz)) != len(fz):
+        if set(names) - set(fz) or missing not in ([], ["self"]):
             continue
         if not missing and len(fz) != argc:
             continue
